@@ -7,3 +7,4 @@ import "github.com/coreos/etcd/raft/raftpb"
 
 func verifOnApply(g *RaftGroup, entry raftpb.Entry)             {}
 func verifOnSnapshotApplied(g *RaftGroup, snap raftpb.Snapshot) {}
+func verifOnStart(g *RaftGroup, snap raftpb.Snapshot)           {}
